@@ -11,6 +11,8 @@ import RedisVerif.Model.StreamActor
                                                           | err pending=<n> calls=<c>
     COMPACT <target> <min> <maxper> <now> <ttlms> <sz>     → nothing|err|cleaned [ids]|emptied [ids] tombs=<n>|
                                                           compacted [ids] -> <id> n=<k> tombs=<n>   (+ calls=<c>)
+    CIFNEEDED <target> <min> <maxper> <now> <ttlms> <max_segments> <sz> → Compactor::compact_if_needed: as COMPACT
+                                                          (`nothing` = Ok(None): below the threshold or NothingToCompact)
     REC                                                 → recovery of the current store image
     INTERLEAVE <target> <min> <maxper> <now> <ttlms> <szc> <szf> → a compaction with one whole flush (of the current
                                                           buffer) between its reads and its writes:
@@ -333,6 +335,15 @@ def step (s : St) (line : String) : St × String :=
       let sys' := stepWith current F s.sys (.compact cfg sz)
       ({ s with sys := sys', ops := s.ops ++ [.compact cfg sz], rootOps := if s.restarted then s.rootOps else s.rootOps ++ [.compact cfg sz] }, s!"{showCompact r.2} calls={sys'.w.calls}")
     | _, _, _, _, _, _ => (s, "bad-op")
+  | ["CIFNEEDED", a, b, c, d, d2, ms, e] =>
+    match a.toNat?, b.toNat?, c.toNat?, d.toNat?, d2.toNat?, ms.toNat?, e.toNat? with
+    | some target, some mn, some mx, some now, some ttl, some maxSegs, some sz =>
+      let cfg : CompactCfg := { target := target, minSegs := mn, maxPer := mx, now := now, ttlMs := ttl }
+      let F := oracleOf s.faults
+      let r := compactIfNeeded F cfg maxSegs sz s.sys.w
+      -- not recorded in `ops` (no CRASH re-run over histories with this entry point)
+      ({ s with sys := { s.sys with w := r.1 } }, s!"{showCompact r.2} calls={r.1.calls}")
+    | _, _, _, _, _, _, _ => (s, "bad-op")
   | ["INTERLEAVE", a, b, c, d, d2, e, f] =>
     match a.toNat?, b.toNat?, c.toNat?, d.toNat?, d2.toNat?, e.toNat?, f.toNat? with
     | some target, some mn, some mx, some now, some ttl, some szc, some szf =>
